@@ -173,6 +173,7 @@ class Budget:
 
 class Interp:
     yield_body = None
+    _for_gen_node = None
     relevant = None  # None = track everything
     frame_has_self = True
     record_decisions = False
@@ -903,6 +904,9 @@ class Interp:
         s = st.copy()
         s.log(node, f"enter {fi.qual}")
         self.bind_params(sub, s, fi, recv, pos, kw)
+        if self._for_gen_node is node:
+            # `for x in gen(...)` with an inlined generator: the body runs when the loop drives it (exec_for_gen)
+            return [Out("normal", s, AV("gen", (fi.qual, sub.frame), truth=True, none=False))]
         outs = sub.exec_block(fi.node.body, [s])
         res = []
         for o in outs:
@@ -1059,6 +1063,10 @@ class Interp:
             if cm is not None:
                 return self.exec_with_cm(stmt, st, cm)
             return self.rule.with_stmt(self, stmt, st)
+        if isinstance(stmt, ast.For) and isinstance(stmt.iter, ast.Call) and self.inline:
+            r = self.exec_for_gen(stmt, st)
+            if r is not None:
+                return r
         if isinstance(stmt, (ast.While, ast.For)):
             return self.exec_loop(stmt, st)
         if isinstance(stmt, ast.Assert):
@@ -1136,7 +1144,78 @@ class Interp:
                 res.append(o)
         return dedup(res)
 
+    def is_generator(self, fi):
+        from . import astq
+        return any(isinstance(n, (ast.Yield, ast.YieldFrom)) for n in astq.walk_fn(fi.node))
+
+    def exec_for_gen(self, stmt: ast.For, st: State):
+        """`for T in g(...)` where g is an inlined repo generator: the generator body is interpreted and the loop body
+        runs at each yield (so hoisting a loop into a generator helper, or inlining one, leaves the paths unchanged).
+        None when the iterable is not such a call."""
+        recv_free = stmt.iter.func
+        q = None
+        if isinstance(recv_free, ast.Name):
+            q = self.m.resolve_local(self.module, recv_free.id)
+        elif isinstance(recv_free, ast.Attribute) and isinstance(recv_free.value, ast.Name) and recv_free.value.id in ("self", "cls") and self.frame_has_self and self.self_cls:
+            fi0 = self.m.find_method(self.self_cls, recv_free.attr)
+            q = fi0.qual if fi0 else None
+        if not q or q not in self.inline or q not in self.m.funcs or not self.is_generator(self.m.funcs[q]) or self.depth >= self.max_depth:
+            return None
+        prev = self._for_gen_node
+        self._for_gen_node = stmt.iter
+        try:
+            vals, raises = self.eval(st, stmt.iter)
+        finally:
+            self._for_gen_node = prev
+        if not vals or any(av.kind != "gen" for _, av in vals):
+            return None
+        outs = list(raises)
+        for s0, gv in vals:
+            qual, frame = gv.val
+            fi = self.m.funcs[qual]
+            sub = self.child(fi, frame, is_method=fi.cls is not None)
+            sub.yield_body = ("for", self, stmt)
+            for o in sub.exec_block(fi.node.body, [s0]):
+                pend = o.st.ts.pop(("pending", sub.frame), None)
+                o.st.env = {k: v for k, v in o.st.env.items() if not k.startswith(sub.frame + ":")}
+                if o.kind in ("normal", "return"):
+                    o.st.log(stmt, f"generator {fi.name} exhausted")
+                    if stmt.orelse:
+                        outs += self.exec_block(stmt.orelse, [o.st])
+                    else:
+                        outs.append(Out("normal", o.st))
+                elif o.kind == "raise" and o.val.val == GEN_EXIT.val and pend is not None:
+                    if pend[0] == "break":
+                        self.rule.loop_break(self, stmt, o.st)
+                        outs.append(Out("normal", o.st))
+                    else:
+                        outs.append(Out(pend[0], o.st, pend[1]))
+                else:
+                    outs.append(o)
+        return dedup(outs)
+
     def exec_yield(self, stmt, st: State):
+        if self.yield_body[0] == "for":
+            _, outer, loop = self.yield_body
+            ynode = stmt.value
+            if isinstance(ynode, ast.YieldFrom):
+                raise AnalysisError(f"`yield from` inside an inlined generator is not supported (line {stmt.lineno})")
+            if ynode.value is not None:
+                vals, raises = self.eval(st, ynode.value)
+            else:
+                vals, raises = [(st, const(None))], []
+            outs = list(raises)
+            for s, av in vals:
+                s = s.copy()
+                s.log(stmt, "yield -> loop body")
+                outer.assign(s, loop.target, av)
+                for o in outer.exec_block(loop.body, [s]):
+                    if o.kind in ("normal", "continue"):
+                        outs.append(Out("normal", o.st))
+                    else:
+                        o.st.ts[("pending", self.frame)] = (o.kind, o.val)
+                        outs.append(Out("raise", o.st, GEN_EXIT))  # the consumer leaves the loop: the generator is closed at this yield
+            return outs
         outer, body = self.yield_body
         outs = []
         for o in outer.exec_block(body, [st]):
